@@ -137,10 +137,11 @@ package backend
 
 // Count: the header names the committed revision; the count is the scanner's (C20: no panic for any request)
 //@ func (*backend).Count(ctx, r) (resp, err)
-//@   props C03 C20
+//@   props C02 C03 C20
 //@   requires wf_backend(b) && b.scanner != nil && r != nil
 //@   modifies inferred:(*backend).Count
 //@   ensures [answer-or-error] err == nil ==> resp != nil && resp.Header != nil
+//@   ensures [header-names-the-committed-revision] err == nil ==> resp.Header.Revision == committed
 
 // ---- C03: the limited list, end to end ----
 //@ func (*backend).List(ctx, r) (resp, err)
@@ -151,6 +152,7 @@ package backend
 //@   let R = ite(r.Revision == 0, resp.Header.Revision, r.Revision)
 //@   ensures [invalid-ranges-are-refused] len(r.End) == 0 || bytes_cmp(r.Key, r.End) >= 0 ==> err != nil
 //@   ensures [header] err == nil ==> resp != nil && resp.Header != nil
+//@   ensures [header-names-the-committed-revision] err == nil ==> resp.Header.Revision == committed
 //@   ensures [the-interval-asked-for] err == nil && r.Limit > 0 ==> is_enc(it_lo, r.Key, uint64(0)) && is_enc(it_hi, r.End, uint64(0))
 //@   ensures [more-exactly-when-the-limit-cut-the-result] err == nil && r.Limit > 0 ==> resp.More == (cnt(rec_n) > r.Limit) && len(resp.Kvs) == ite(cnt(rec_n) > r.Limit, r.Limit, cnt(rec_n))
 // C02: the header is never below the data, provided the read revision is not above the committed one
